@@ -619,7 +619,7 @@ func (w *World) settle() error {
 }
 
 // HandlerEventTimeout bounds the wait for an event on a northbound handler's own watch.
-var HandlerEventTimeout = 8 * time.Second
+var HandlerEventTimeout = 20 * time.Second
 
 func (f *forwarder) waitCaughtUp() error {
 	timeout := InfraTimeout
